@@ -23,4 +23,14 @@ def attach(rep, pid):
     if missing:
         rep.violation("proof-obligation-missing", {"theorems": missing}, found_input=False)
     rep.cov["trusted_base"] = core.TRUSTED_BASE
+    if ok and rep.tier == "thorough":
+        # independent re-check of the compiled module (and, transitively, what it imports)
+        with core.Lock("lean"):
+            p = core.run(["lake", "env", "leanchecker", f"BB.Props.{pid}"], cwd=core.LEAN, check=False)
+        rep.cov["leanchecker"] = "ok" if p.returncode == 0 else "failed"
+        if p.returncode != 0:
+            rep.violation("proof-obligation-failed",
+                          {"theorems": [f"leanchecker BB.Props.{pid}: " + (p.stdout + p.stderr)[-1500:]]},
+                          found_input=False)
+            return False
     return ok
